@@ -3852,7 +3852,12 @@ class Intent_Spec(STRINGBase):  # R517
 
     @staticmethod
     def match(string):
-        return STRINGBase.match(pattern.abs_intent_spec, string)
+        result = STRINGBase.match(pattern.abs_intent_spec, string)
+        if result and len(result[0].split()) > 1:
+            # 'IN   OUT' (blanks, or a continuation, between the two words)
+            # is the same specification as 'IN OUT'.
+            result = (" ".join(result[0].split()),)
+        return result
 
 
 class Access_Stmt(StmtBase, WORDClsBase):  # R518
